@@ -14,7 +14,7 @@ use std::rc::Rc;
 pub const DEF: PropDef = PropDef {
     id: "C08",
     level: "fault_enumeration",
-    rule: "all sequences of <=4 (thorough <=6) statements over {say \"a\", say x, say x plus 1, listen to x, listen, listen to y at 0, put 1 into z, say y at 0, say 1.5, say of a string ending in a line break, say of the empty string} x 17 inputs (a byte-order mark and no-break spaces at the ends of lines, empty, blank lines between non-blank lines, missing final newline, blank lines, non-ASCII, a 9000-byte line, lines ending exactly at / before / after the 8 KiB buffer boundary, invalid UTF-8) x every schedule of environment answers with at most d deviations from the default (writer: 1-byte short write, Interrupted, Ok(0), Err(Other), Err(BrokenPipe); reader: 1-byte read, whole-input read, Interrupted, Err(Other)), d=2 everywhere and d=3 on programs of <=2 statements (thorough: d=2 everywhere, d=3 on <=4, d=4 on <=3); fourth family: say of texts of 0 / 1 / 31..33 / 255..257 / 1023..1025 / 2048 / 4095..4097 / 8191..8193 / 65 535..65 537 bytes (ASCII, two-byte characters, built at run time), d=1; third family: 4 listen programs x 4 inputs with lines of 65 535 / 65 536 / 65 538 (a multi-byte character across the mark) / 200 000 bytes, d=1; second family: every I/O body (all sequences of 1..2 of say \"a\" / say x / listen to x / listen) placed in each of 27 syntactic contexts (top level; a function called as a statement, in an output, an assignment, an if / while / until condition, a return value, list operands, a rock list, a read and a written subscript, a compound assignment, both sides of short-circuit operators, a cut parameter, call arguments, nested calls, recursion before and after the recursive call; then / else / while / until bodies, after continue, before break) x 2 tails (an output, a listen) x 4 inputs, d=2 (thorough d=3); default reader delivers one line per call so that every listen maps to its own read call; a case = (program, input), explored over all its schedules; non-trivial = the program performs at least one I/O call; distinct = distinct (program, input)",
+    rule: "all sequences of <=4 (thorough <=6) statements over {say \"a\", say x, say x plus 1, listen to x, listen, listen to y at 0, put 1 into z, say y at 0, say 1.5, say of a string ending in a line break, say of the empty string} x 17 inputs (a byte-order mark and no-break spaces at the ends of lines, empty, blank lines between non-blank lines, missing final newline, blank lines, non-ASCII, a 9000-byte line, lines ending exactly at / before / after the 8 KiB buffer boundary, invalid UTF-8) x every schedule of environment answers with at most d deviations from the default (writer: 1-byte short write, Interrupted, Ok(0), Err(Other), Err(BrokenPipe); reader: 1-byte read, whole-input read, Interrupted, Err(Other)), d=2 everywhere and d=3 on programs of <=2 statements (thorough: d=2 everywhere, d=3 on <=4, d=4 on <=3); fourth family: say of texts of 0 / 1 / 31..33 / 255..257 / 1023..1025 / 2048 / 4095..4097 / 8191..8193 / 65 535..65 537 bytes (ASCII, two-byte characters, built at run time), d=1; third family: 4 listen programs x 4 inputs with lines of 65 535 / 65 536 / 65 538 (a multi-byte character across the mark) / 200 000 bytes, d=1; second family: every I/O body (all sequences of 1..2 of say \"a\" / say x / listen to x / listen) placed in each of 29 syntactic contexts (top level; a function called as a statement, in an output, an assignment, an if / while / until condition, a return value, list operands, a rock list, a read and a written subscript, a compound assignment, both sides of short-circuit operators, a cut parameter, call arguments, nested calls, recursion before and after the recursive call; then / else / while / until bodies, after continue, before break, loops left by break / return under a guard that does I/O) x 2 tails (an output, a listen) x 4 inputs, d=2 (thorough d=3); default reader delivers one line per call so that every listen maps to its own read call; a case = (program, input), explored over all its schedules; non-trivial = the program performs at least one I/O call; distinct = distinct (program, input)",
     assumptions: &[
         "reference line model from the property text; CR is not in the input alphabet (U-crlf)",
         "the number of read calls per listen is not judged (buffering is allowed); what is judged: every read call happens when exactly the output due before some listen has been written, the first read at the first listen",
